@@ -177,14 +177,27 @@ class LockSemantics(object):
     per path p: inode bound to it (0 = absent); fresh-inode counter.
     Events (outcome): open:p, flock(ok/fail), stat(same/diff), close, remove(ok/enoent):p, enter, leave."""
 
-    def __init__(self, k, npaths=1):
+    def __init__(self, k, npaths=1, bv=0):
         self.k, self.npaths = k, npaths
+        self.set_sort(bv)
+
+    def set_sort(self, bv):
+        """bv=0: mathematical integers (Houdini, unbounded counters); bv=N: N-bit vectors for BMC
+        (finite horizon, counters cannot reach 2^(N-1))"""
+        self.bv = bv
+        if bv:
+            self.V = lambda name: z3.BitVec(name, bv)
+            self.N = lambda v: z3.BitVecVal(v, bv)
+        else:
+            self.V = z3.Int
+            self.N = z3.IntVal
 
     def mk(self, p):
         k = self.k
-        return dict(node=[z3.Int('%sn%d' % (p, i)) for i in range(k)], fd=[z3.Int('%sfd%d' % (p, i)) for i in range(k)],
-                    h=[z3.Bool('%sh%d' % (p, i)) for i in range(k)], fp=[z3.Int('%sfp%d' % (p, i)) for i in range(k)],
-                    path=[z3.Int('%spath%d' % (p, j)) for j in range(self.npaths)], nxt=z3.Int('%snxt' % p))
+        V = self.V
+        return dict(node=[V('%sn%d' % (p, i)) for i in range(k)], fd=[V('%sfd%d' % (p, i)) for i in range(k)],
+                    h=[z3.Bool('%sh%d' % (p, i)) for i in range(k)], fp=[V('%sfp%d' % (p, i)) for i in range(k)],
+                    path=[V('%spath%d' % (p, j)) for j in range(self.npaths)], nxt=V('%snxt' % p))
 
     def init(self, s):
         return z3.And(s['nxt'] == 1, *([s['path'][j] == 0 for j in range(self.npaths)] +
@@ -202,7 +215,7 @@ class LockSemantics(object):
             upd['path'][p] = newp
             upd['nxt'] = z3.If(cur == 0, a['nxt'] + 1, a['nxt'])
             upd['fd'] = newp
-            upd['fp'] = z3.IntVal(p)
+            upd['fp'] = self.N(p)
         elif name == 'flock':
             free = z3.And(*[z3.Not(z3.And(a['h'][j], a['fd'][j] == a['fd'][i])) for j in range(self.k) if j != i])
             pre.append(free if outcome == 'ok' else z3.Not(free))
@@ -217,11 +230,11 @@ class LockSemantics(object):
             pre.append(same if outcome == 'same' else z3.Not(same))
         elif name == 'close':
             upd['h'] = z3.BoolVal(False)
-            upd['fd'] = z3.IntVal(-1)
+            upd['fd'] = self.N(-1)
         elif name == 'remove':
             pre.append(a['path'][p] != 0 if outcome == 'ok' else a['path'][p] == 0)
             if outcome == 'ok':
-                upd['path'][p] = z3.IntVal(0)
+                upd['path'][p] = self.N(0)
         elif name in ('enter', 'leave', 'done', 'halt'):
             pass
         else:
@@ -270,16 +283,21 @@ class LockSemantics(object):
         return c
 
 
+def _aut(aut, i):
+    return aut[i] if isinstance(aut, (list, tuple)) else aut
+
+
 def transition(aut, sem, a, b, cycles=None, extra_state=None):
     """disjunction over contenders and compound edges; returns (formula, labels)"""
     opts = []
     labels = []
     for i in range(sem.k):
-        for n in aut.reach:
-            for (e, o, c) in aut.edges[n]:
+        auti = _aut(aut, i)
+        for n in auti.reach:
+            for (e, o, c) in auti.edges[n]:
                 pre, upd = sem.step(a, i, e, o)
                 pre = [a['node'][i] == n] + pre
-                post = sem.frame(a, b, i, upd, z3.IntVal(c))
+                post = sem.frame(a, b, i, upd, sem.N(c))
                 opts.append(z3.And(*(pre + post)))
                 labels.append((i, n, e, o, c))
     for f in sem.env_steps(a, b):
@@ -288,41 +306,52 @@ def transition(aut, sem, a, b, cycles=None, extra_state=None):
     return opts, labels
 
 
-def in_cs_count(aut, s, k):
-    cs = aut.cs_nodes()
-    return z3.Sum([z3.If(z3.Or(*[s['node'][i] == n for n in cs]), 1, 0) for i in range(k)])
+def in_cs_count(aut, s, k, sem=None):
+    one, zero = (sem.N(1), sem.N(0)) if sem is not None and getattr(sem, 'bv', 0) else (1, 0)
+    parts = [z3.If(z3.Or(*[s['node'][i] == n for n in _aut(aut, i).cs_nodes()]), one, zero) for i in range(k)]
+    tot = parts[0]
+    for x in parts[1:]:
+        tot = tot + x
+    return tot
 
 
-def bmc(aut, sem, T, limit=1, timeout_ms=120000):
-    """find a schedule with more than `limit` contenders inside the critical section"""
-    s = z3.Solver()
+def bmc_bv(aut, sem, T, bits=16, **kw):
+    """BMC over bit-vectors (bit-blasted to SAT): the horizon T bounds every counter by T+1 < 2^(bits-1)"""
+    assert T + 2 < 2 ** (bits - 1)
+    old = sem.bv
+    sem.set_sort(bits)
+    try:
+        return bmc(aut, sem, T, **kw)
+    finally:
+        sem.set_sort(old)
+
+
+def bmc(aut, sem, T, limit=1, timeout_ms=120000, bad_fn=None):
+    """find a schedule with more than `limit` contenders inside the critical section (or reaching
+    a state where bad_fn(state) holds).  Incremental unrolling: depth d is asked before d+1."""
+    s = z3.SolverFor('QF_BV') if getattr(sem, 'bv', 0) else z3.Solver()
     s.set('timeout', timeout_ms)
-    S = [sem.mk('t%d_' % t) for t in range(T + 1)]
+    S = [sem.mk('t0_')]
     s.add(sem.init(S[0]))
     picks = []
-    bad = []
     all_labels = None
+    t0 = time.time()
     for t in range(T):
+        S.append(sem.mk('t%d_' % (t + 1)))
         opts, labels = transition(aut, sem, S[t], S[t + 1])
         all_labels = labels
-        pick = z3.Int('pick%d' % t)
+        pick = z3.BitVec('pick%d' % t, 16) if getattr(sem, 'bv', 0) else z3.Int('pick%d' % t)
         picks.append(pick)
         s.add(z3.Or(*[z3.And(pick == j, f) for j, f in enumerate(opts)]))
-        bad.append(in_cs_count(aut, S[t + 1], sem.k) > limit)
-    s.add(z3.Or(*bad))
-    t0 = time.time()
-    r = s.check()
-    dt = time.time() - t0
-    if r == z3.sat:
-        m = s.model()
-        sched = []
-        for t in range(T):
-            lab = all_labels[m.eval(picks[t], model_completion=True).as_long()]
-            sched.append(lab)
-            if m.eval(in_cs_count(aut, S[t + 1], sem.k), model_completion=True).as_long() > limit:
-                break
-        return 'sat', dt, sched
-    return str(r), dt, None
+        bad = bad_fn(S[t + 1]) if bad_fn else in_cs_count(aut, S[t + 1], sem.k, sem) > limit
+        r = s.check(bad)
+        if r == z3.sat:
+            m = s.model()
+            sched = [all_labels[m.eval(picks[u], model_completion=True).as_long()] for u in range(t + 1)]
+            return 'sat', time.time() - t0, sched
+        if r == z3.unknown:
+            return 'unknown', time.time() - t0, None
+    return 'unsat', time.time() - t0, None
 
 
 def houdini(aut, sem, prop, timeout_ms=60000):
@@ -336,33 +365,45 @@ def houdini(aut, sem, prop, timeout_ms=60000):
     t0 = time.time()
     s = z3.Solver()
     s.set('timeout', timeout_ms)
-    alive = []
-    for name, f in cands:
-        s.push()
-        s.add(sem.init(a), z3.Not(f(a)))
-        r = s.check()
-        q += 1
-        s.pop()
-        if r == z3.unsat:
-            alive.append((name, f))
-    changed = True
-    while changed:
-        changed = False
+    # candidates true initially: drop everything some initial state falsifies (batched: one model
+    # eliminates all candidates it falsifies)
+    alive = list(cands)
+    while alive:
         s = z3.Solver()
         s.set('timeout', timeout_ms)
-        s.add(trans, *[f(a) for _, f in alive])
-        keep = []
-        for name, f in alive:
-            s.push()
-            s.add(z3.Not(f(b)))
-            r = s.check()
-            q += 1
-            s.pop()
-            if r == z3.unsat:
-                keep.append((name, f))
-            else:
-                changed = True
-        alive = keep
+        s.add(sem.init(a), z3.Or(*[z3.Not(f(a)) for _, f in alive]))
+        r = s.check()
+        q += 1
+        if r != z3.sat:
+            if r == z3.unknown:
+                return 'unknown', 0, q, round(time.time() - t0, 2), [], (lambda st: z3.BoolVal(True))
+            break
+        m = s.model()
+        alive = [(n_, f) for n_, f in alive if not z3.is_false(m.eval(f(a), model_completion=True))]
+    # consecution: largest subset preserved by every step from a state satisfying the subset.
+    # One incremental solver; candidate j is switched on by the assumption literal on_j.
+    s = z3.Solver()
+    s.set('timeout', timeout_ms)
+    s.add(trans)
+    on = {}
+    fb = {}
+    for j, (n_, f) in enumerate(alive):
+        on[n_] = z3.Bool('on!%d' % j)
+        s.add(z3.Implies(on[n_], f(a)))
+        fb[n_] = f(b)
+    rnd = 0
+    while alive:
+        rnd += 1
+        goal = z3.Bool('round!%d' % rnd)
+        s.add(z3.Implies(goal, z3.Or(*[z3.Not(fb[n_]) for n_, _ in alive])))
+        r = s.check([on[n_] for n_, _ in alive] + [goal])
+        q += 1
+        if r == z3.unsat:
+            break
+        if r == z3.unknown:
+            return 'unknown', 0, q, round(time.time() - t0, 2), [], (lambda st: z3.BoolVal(True))
+        m = s.model()
+        alive = [(n_, f) for n_, f in alive if not z3.is_false(m.eval(fb[n_], model_completion=True))]
     s = z3.Solver()
     s.set('timeout', timeout_ms)
     s.add(*[f(a) for _, f in alive])
